@@ -572,7 +572,7 @@ Ltac l3_norm_goal :=
   rewrite ?init_sc_eq, ?join_sc_eq, ?leave_sc_eq.
 
 Ltac l3_solve :=
-  l3_norm_goal; cbn [cls_of cls_eqb lfinishing b2z negb] in *; lia.
+  l3_norm_goal; cbn [cls_of cls_eqb lfinishing]; cbn [b2z negb] in *; lia.
 
 Lemma L3_step c t : L2 c -> L3 c -> L3 (step c t).
 Proof.
@@ -596,7 +596,8 @@ Proof.
   cbn [c_sc c_ti c_nt c_swapped c_bins c_thr c_log count_ev] in HL3'.
   rewrite !cnt_mid in HL3'. unfold ind in HL3'.
   cbn [c_sc c_ti c_nt c_swapped c_bins c_thr c_log].
-  destruct p as [ph p]; destruct p; rewrite ?ph_irrel; cbn [tinv] in Hp.
+  destruct p as [ph p]; destruct p; rewrite ?ph_irrel; cbn [tinv] in Hp;
+    cbn [cls_of cls_eqb] in HL3'.
   - (* Idle *)
     destruct (sc <? 0) eqn:Es.
     + destruct (add_count_break sc (rs n)) eqn:Eb; [exact HL3|].
@@ -637,7 +638,7 @@ Proof.
       l3_norm_goal. rewrite (head_fin_cls n (mkL _ _ true true) eq_refl). l3_solve.
     + l3_norm_goal. rewrite (head_nofin_cls n l Hp). l3_solve.
   - (* AtBin *)
-    destruct (lfinishing l) eqn:Ef; cbn [cls_of] in HL3'; rewrite Ef in HL3'.
+    destruct (lfinishing l) eqn:Ef; cbn [cls_eqb] in HL3'.
     + assert (Hc : forall l', lfinishing l' = true -> cls_of (head l') = CSweep)
         by (intros; apply head_fin_cls; assumption).
       destruct HL3' as [HN|[HR|HP]]; [exfalso; l3_solve|right; left|exfalso; l3_solve].
@@ -788,7 +789,6 @@ Variable sc0 : Z.
 Variable bins0 : list binstate.
 Variable k : nat.
 Hypothesis Hn : In n table_lengths.
-Hypothesis Hcpu : 1 <= ncpu.
 Hypothesis Hsc0 : 0 <= sc0.
 Hypothesis Hlen0 : length bins0 = Z.to_nat n.
 Hypothesis Hnofwd : ~ In BFwd bins0.
@@ -826,6 +826,21 @@ Proof.
   intros c' a Hc'. destruct (bstep_ble _ _ (act_bstep n ncpu c' a)) as [_ Hb]. apply Hb. exact Hc'.
 Qed.
 
+Lemma npre_nfin_nonneg l : 0 <= npre l /\ 0 <= nfin l.
+Proof.
+  unfold npre, nfin.
+  pose proof (cnt_nonneg CIsn l). pose proof (cnt_nonneg CPre l).
+  pose proof (cnt_nonneg CSweep l). pose proof (cnt_nonneg CPub2 l).
+  pose proof (cnt_nonneg CPub3 l). lia.
+Qed.
+
+Lemma b2z_0 b : b2z b = 0 -> b = false.
+Proof. destruct b; cbn; [lia|reflexivity]. Qed.
+Lemma b2z_1 b : b2z b = 1 -> b = true.
+Proof. destruct b; cbn; [reflexivity|lia]. Qed.
+Lemma b2z_not_1 b : b2z b <> 1 -> b = false.
+Proof. destruct b; cbn; [lia|reflexivity]. Qed.
+
 Section Goals.
 Variable n : Z.
 Variable ncpu : Z.
@@ -833,7 +848,6 @@ Variable sc0 : Z.
 Variable bins0 : list binstate.
 Variable k : nat.
 Hypothesis Hn : In n table_lengths.
-Hypothesis Hcpu : 1 <= ncpu.
 Hypothesis Hsc0 : 0 <= sc0.
 Hypothesis Hlen0 : length bins0 = Z.to_nat n.
 Hypothesis Hnofwd : ~ In BFwd bins0.
@@ -879,18 +893,42 @@ Proof.
   rewrite Forall_forall in Hall. specialize (Hall _ Hin). cbn [tinv] in Hall. lia.
 Qed.
 
+(* the thread-local invariant, for every thread id (ids beyond the table are Gone): no thread is
+   ever at Loop, ClaimCas / LeaveCas are only reached with finishing = false, join candidates
+   carry a negative sc that passed the two refusal tests, and the finisher's sweep: *)
+Theorem thread_local_invariant t : tinv n (c_bins c) (thr c t).
+Proof.
+  destruct HI as ((_ & Hall & _) & _ & _). unfold thr.
+  destruct (Nat.lt_ge_cases t (length (c_thr c))) as [Hlt|Hge].
+  - rewrite Forall_forall in Hall. apply Hall. apply nth_In. exact Hlt.
+  - rewrite nth_overflow by exact Hge. exact I.
+Qed.
+
+(* when the finisher stands at bin i, every bin above i is already forwarded *)
+Theorem finisher_sweep t ph l seen j :
+  thr c t = T ph (AtBin l seen) -> lfinishing l = true ->
+  (Z.to_nat (li l) < j)%nat -> c_bin c j = BFwd.
+Proof.
+  intros Ht Hf Hj. pose proof (thread_local_invariant t) as H. rewrite Ht in H. cbn [tinv] in H.
+  destruct H as [_ H]. destruct (H Hf) as (_ & Hs & _). apply Hs. lia.
+Qed.
+
+(* the publication steps are only reached with every bin forwarded *)
+Theorem publisher_all_fwd t ph q :
+  thr c t = T ph q -> is_Pub23 q = true \/ (exists l, q = Pub1 l) -> all_fwd c = true.
+Proof.
+  intros Ht Hq. pose proof (thread_local_invariant t) as H. rewrite Ht in H.
+  apply (all_fwd_iff c). destruct Hq as [Hq|[l ->]]; [|exact H].
+  destruct q; try discriminate; exact H.
+Qed.
+
 (* ---- the phase invariant (4.) ---- *)
 
 Theorem phase_invariant : NotStarted sc0 c \/ Running n c \/ Published n c.
 Proof. apply HI. Qed.
 
 Lemma pre_fin_nonneg : 0 <= npre (c_thr c) /\ 0 <= nfin (c_thr c).
-Proof.
-  unfold npre, nfin.
-  pose proof (cnt_nonneg CIsn (c_thr c)). pose proof (cnt_nonneg CPre (c_thr c)).
-  pose proof (cnt_nonneg CSweep (c_thr c)). pose proof (cnt_nonneg CPub2 (c_thr c)).
-  pose proof (cnt_nonneg CPub3 (c_thr c)). lia.
-Qed.
+Proof. apply npre_nfin_nonneg. Qed.
 
 Lemma in_progress_running : c_sc c < 0 -> Running n c.
 Proof.
@@ -913,13 +951,6 @@ Proof.
     intros _. split; [|exact Ep]. apply (count_pos_nonempty is_init). lia.
   - destruct HP as (E & _ & _ & Ep & _). split; [lia|]. intros [_ H]. lia.
 Qed.
-
-Lemma b2z_0 b : b2z b = 0 -> b = false.
-Proof. destruct b; cbn; [lia|reflexivity]. Qed.
-Lemma b2z_1 b : b2z b = 1 -> b = true.
-Proof. destruct b; cbn; [reflexivity|lia]. Qed.
-Lemma b2z_not_1 b : b2z b <> 1 -> b = false.
-Proof. destruct b; cbn; [lia|reflexivity]. Qed.
 
 (* size_ctl = stamp + 1 + number of threads that entered and have not yet left, while the
    resize is in progress; the bound; the election: either nobody is finishing and somebody is
@@ -1043,6 +1074,61 @@ Qed.
 
 End Goals.
 
+(* ---- the initiating CAS may be folded with the load of size_ctl (ResizeProto.step, Idle) ----
+   In the implementation the initiator loads sc = s >= 0 (and the table), and later executes
+   CAS(sc, s, rs + 2).  If the CAS succeeds, size_ctl holds s again at that instant; then the
+   configuration at the CAS is still "not started" - the tests made at the load (s >= 0, table
+   not yet replaced) hold again at the CAS, so the pair load ; CAS behaves as the single step of
+   the model taken at the instant of the CAS.  This needs sc0 <> next_threshold n (no ABA on the
+   value of size_ctl); for the threshold of a table of length n, load_factor n, this holds. *)
+Definition thresholds_differ_b : bool :=
+  forallb (fun n => negb (load_factor n =? next_threshold n)) table_lengths.
+Lemma thresholds_differ n : In n table_lengths -> load_factor n <> next_threshold n.
+Proof.
+  assert (H : thresholds_differ_b = true) by (vm_compute; reflexivity).
+  intros Hn. unfold thresholds_differ_b in H. rewrite forallb_forall in H. specialize (H n Hn). lia.
+Qed.
+
+Theorem cas_sc_atomic n ncpu sc0 bins0 k sched sched' :
+  In n table_lengths -> 0 <= sc0 -> length bins0 = Z.to_nat n -> ~ In BFwd bins0 ->
+  sc0 <> next_threshold n ->
+  let c := run n ncpu (init sc0 bins0 k) sched in          (* at the load *)
+  let c' := run n ncpu c sched' in                          (* at the CAS *)
+  0 <= c_sc c -> c_swapped c = false ->                     (* the tests made after the load *)
+  c_sc c' = c_sc c ->                                       (* the CAS succeeds *)
+  c_sc c' = sc0 /\ c_swapped c' = false /\ c_nt c' = false /\ c_log c' = [].
+Proof.
+  intros Hn Hsc0 Hlen Hnf Hne c c' Hs Hsw Hcas.
+  pose proof (n_facts n Hn) as (_ & _ & Hsc & _ & Hrs).
+  assert (E : c_sc c = sc0).
+  { pose proof (npre_nfin_nonneg (c_thr c)).
+    destruct (phase_invariant n ncpu sc0 bins0 k Hn Hsc0 Hlen Hnf sched) as [HN|[HR|HP]].
+    - apply HN.
+    - destruct HR as (E & Hb & _). subst c. lia.
+    - destruct HP as (_ & _ & H1 & _). subst c. rewrite Hsw in H1. discriminate. }
+  assert (Ec' : c' = run n ncpu (init sc0 bins0 k) (sched ++ sched')) by (symmetry; apply run_app).
+  pose proof (npre_nfin_nonneg (c_thr c')).
+  destruct (phase_invariant n ncpu sc0 bins0 k Hn Hsc0 Hlen Hnf (sched ++ sched')) as [HN|[HR|HP]];
+    rewrite <- Ec' in *.
+  - destruct HN as (El & Es & Hnt & Hsw' & _). apply b2z_0 in Hnt, Hsw'. auto.
+  - destruct HR as (E' & Hb & _). unfold next_threshold in Hne. lia.
+  - destruct HP as (E' & _). unfold next_threshold in Hne. lia.
+Qed.
+
+(* for the threshold an n-bin table actually carries *)
+Corollary cas_sc_atomic_load_factor n ncpu bins0 k sched sched' :
+  In n table_lengths -> length bins0 = Z.to_nat n -> ~ In BFwd bins0 ->
+  let sc0 := load_factor n in
+  let c := run n ncpu (init sc0 bins0 k) sched in
+  let c' := run n ncpu c sched' in
+  0 <= c_sc c -> c_swapped c = false -> c_sc c' = c_sc c ->
+  c_sc c' = sc0 /\ c_swapped c' = false /\ c_nt c' = false /\ c_log c' = [].
+Proof.
+  intros Hn Hlen Hnf sc0. apply cas_sc_atomic; try assumption.
+  - subst sc0. rewrite load_factor_eq. destruct (n_facts n Hn) as (H1 & _). lia.
+  - apply thresholds_differ, Hn.
+Qed.
+
 (* ================= 6. non-vacuity: concrete runs ================= *)
 
 Definition each_migrated_once (m : nat) (c : cfg) : bool :=
@@ -1105,6 +1191,9 @@ Print Assumptions each_bin_once.
 Print Assumptions migrated_iff_fwd.
 Print Assumptions migrated_in_range.
 Print Assumptions indices_in_range.
+Print Assumptions thread_local_invariant.
+Print Assumptions finisher_sweep.
+Print Assumptions publisher_all_fwd.
 Print Assumptions phase_invariant.
 Print Assumptions in_progress_iff.
 Print Assumptions size_ctl_counts_resizers.
@@ -1120,3 +1209,5 @@ Print Assumptions completion.
 Print Assumptions ex1_complete.
 Print Assumptions ex2_complete.
 Print Assumptions ex2_concurrent.
+Print Assumptions cas_sc_atomic.
+Print Assumptions cas_sc_atomic_load_factor.
